@@ -89,6 +89,7 @@ step_st = st.one_of(
     st.tuples(st.just("yields"), st.sampled_from(["gen"])).map(list),
     st.tuples(st.just("binary"), st.sampled_from(["subtract", "add"]), st.sampled_from(["fwd", "rev"])).map(list),
     st.tuples(st.just("reduce_order"), st.sampled_from(["asc", "desc"])).map(list),
+    st.tuples(st.just("stack"), st.sampled_from([0, 1, -1]), st.sampled_from(["default", "own_dict"])).map(list),
 )
 
 
@@ -118,6 +119,8 @@ def name_cases(draw):
             s[1] = "desc" if s[1] == "asc" else "asc"
         elif s[0] == "reduce":
             s[1] = draw(st.sampled_from(["red", "red_other"]))
+        elif s[0] == "stack":
+            s[1] = draw(st.sampled_from([a for a in (0, 1, -1) if a != s[1]]))  # same operation, other static argument (axis)
     return {"kind": "names", "shape": shape, "p1": p1, "p2": p2, "union": draw(st.sampled_from(["from_actions", "add", "graph_add"])),
             "lambda_sources": draw(st.booleans())}
 
@@ -153,13 +156,28 @@ def _gen(x):
     yield x + 1
 
 
-def _build_chain(shape, steps, lambda_sources=False):
+def _build_chain(shape, steps, lambda_sources=False, applied=None, caller_kw=None):
+    """applied (optional list) receives one bool per step: whether the step was applicable and applied. caller_kw: a dict the
+    "user" created once and passes as backend_kwargs to every stack call of the case (steps of style own_dict)."""
+    if applied is None:
+        applied = []
+    n_before = [0]
     payloads = np.empty(shape, dtype=object)
     for n, idx in enumerate(np.ndindex(*shape)):
         payloads[idx] = _SRC_LAMBDAS[n] if lambda_sources else _SRC_FNS[n]
     a = fluent.from_source(payloads, dims=["x", "y"], coords={"x": list(range(shape[0])), "y": list(range(shape[1]))})
     src = a
     for s in steps:
+        applied.append(False)
+        if s[0] == "stack":
+            d = "y" if "y" in a.nodes.dims else None
+            if d is None or a.nodes.sizes[d] < 2:
+                continue
+            # sources return scalars: stacked along the only axis there is, whatever `axis` says (0 and -1 are the same place, 1
+            # fails at run time) -- the graph, which is all this check looks at, records the requested axis as a static argument
+            a = a.stack(d, axis=s[1]) if s[2] == "default" else a.stack(d, axis=s[1], backend_kwargs=caller_kw if caller_kw is not None else {})
+            applied[-1] = True
+            continue
         if s[0] == "binary":
             # the same binary operation over the same two operands, in either operand order
             other = src.map(POOL["fac1"])
@@ -191,6 +209,7 @@ def _build_chain(shape, steps, lambda_sources=False):
             if d is None or a.nodes.sizes[d] < 2:
                 continue
             a = a.reduce(POOL[s[1]], dim=d)
+        applied[-1] = True
     return a
 
 
@@ -243,14 +262,33 @@ def _f6_signature(n1, n2, memo) -> bool:
 def run_names(c, stats: Stats | None) -> tuple[bool, list[str]]:
     classes = ["kind:names", "union:" + c["union"]]
     ls = bool(c.get("lambda_sources"))
-    a1 = _build_chain(c["shape"], c["p1"], ls)
-    a2 = _build_chain(c["shape"], c["p2"], ls)
+    caller_kw: dict = {}  # the user's own (empty) keyword dict, handed to every stack call of style own_dict
+    ap1: list = []
+    ap2: list = []
+    a1 = _build_chain(c["shape"], c["p1"], ls, ap1, caller_kw)
+    a2 = _build_chain(c["shape"], c["p2"], ls, ap2, caller_kw)
     # building the same program twice gives the same names
-    a1b = _build_chain(c["shape"], c["p1"], ls)
+    a1b = _build_chain(c["shape"], c["p1"], ls, None, caller_kw)
     n1 = [getattr(x, "name", None) if not hasattr(x, "parent") else (x.parent.name, x.name) for x in a1.nodes.values.flatten()]
     n1b = [getattr(x, "name", None) if not hasattr(x, "parent") else (x.parent.name, x.name) for x in a1b.nodes.values.flatten()]
     if n1 != n1b:
         raise Violation(f"building program {c['p1']} twice gave different node names", "names-not-reproducible")
+    # two programs that REQUEST different computations must not end in nodes of the same name: they differ in exactly one step, a
+    # stack whose static argument `axis` is another one, applied in both, and everything downstream consumes it. (For the other
+    # step kinds the as-built payloads tell the difference and the clause below judges them; here the requested axis is compared,
+    # because a stack call that records another axis than the one it was given would make the as-built payloads agree)
+    if len(c["p1"]) == len(c["p2"]):
+        diff = [i for i, (s1, s2) in enumerate(zip(c["p1"], c["p2"])) if s1 != s2]
+        if len(diff) == 1 and c["p1"][diff[0]][0] == "stack" and c["p1"][diff[0]][1] != c["p2"][diff[0]][1] \
+                and ap1[diff[0]] and ap2[diff[0]] and ap1 == ap2:
+            def _names(a):
+                return {x.name if not hasattr(x, "parent") else x.parent.name for x in a.nodes.values.flatten()}
+
+            common_names = _names(a1) & _names(a2)
+            if common_names:
+                raise Violation(f"programs {c['p1']} and {c['p2']} request different computations (step {diff[0]} differs) but end in "
+                                f"nodes of the same name {sorted(common_names)[:2]}", "different-requests-same-name")
+            classes.append("requested_difference_checked")
     # same name => same computation, over both programs
     memo: dict = {}
     by_name: dict[str, list] = {}
